@@ -26,11 +26,17 @@ def gen(ctx):
     if h.version.minor >= 4 and rng.random() < 0.55:
         evl = laspy.vlrs.vlrlist.VLRList([lasio.rand_vlr(rng) for _ in range(rng.choice([1, 2]))])
     raw0 = lasio.write_las(h, A, evl)
-    desc = {"version": str(h.version), "format": h.point_format.id, "orig_points": n0, "evlrs": len(evl or []), "vlrs": len(h.vlrs), "sessions": []}
+    gap = 0
+    if evl and rng.random() < 0.35:
+        # unused bytes between the last point and the first EVLR of the original (legal; the appended points overwrite them)
+        gap = rng.choice([1, h.point_format.size - 1, h.point_format.size, 3 * h.point_format.size + 1, 500])
+        raw0 = lasio.with_gap(raw0, gap) or raw0
+    desc = {"version": str(h.version), "format": h.point_format.id, "orig_points": n0, "evlrs": len(evl or []), "vlrs": len(h.vlrs), "gap": gap, "sessions": []}
     cur = raw0
     chunks_all, model_ok = [], True
     outs_all = []
     model_cmds = []
+    use_with = rng.random() < 0.3     # the session runs inside a with-block; a refused chunk then propagates out of it
     for si in range(rng.choice([1, 1, 2, 3])):
         bio = io.BytesIO(cur)
         try:
@@ -38,6 +44,7 @@ def gen(ctx):
         except Exception as ex:
             return {"desc": desc, "final": None, "error": "open: " + repr(ex)}
         toks, sdesc = [], []
+        closed_by_with = False
         for _ in range(rng.randrange(0, 5)):
             r = rng.random()
             if r < 0.62:
@@ -57,6 +64,20 @@ def gen(ctx):
             before_rec = (lasio.rec_bytes(rec), tuple(map(float, getattr(rec, "scales", []))), tuple(map(float, getattr(rec, "offsets", []))))
             before_file = bio.getvalue()
             try:
+                if use_with and kind == "foreign" and len(rec):
+                    # the exception leaves a with-block: the appender must still finalise the file with what was accepted
+                    try:
+                        with ap:
+                            ap.append_points(rec)
+                        o = "ok"
+                    except Exception as ex:
+                        o = "err:" + common.exc_kind(ex)
+                    after_rec = (lasio.rec_bytes(rec), tuple(map(float, getattr(rec, "scales", []))), tuple(map(float, getattr(rec, "offsets", []))))
+                    outs_all.append((kind, len(rec), o, before_rec == after_rec, True))
+                    sdesc.append(f"{kind}{len(rec)}!with-exit")
+                    toks.append("F" + common.hexb(bytes(len(rec) * h.point_format.size)))
+                    closed_by_with = True
+                    break
                 ap.append_points(rec)
                 o = "ok"
             except Exception as ex:
@@ -75,7 +96,8 @@ def gen(ctx):
                 if o == "ok":
                     chunks_all.append(rec)
         try:
-            ap.close()
+            if not closed_by_with:
+                ap.close()
         except Exception as ex:
             return {"desc": desc, "final": None, "error": "close: " + repr(ex)}
         desc["sessions"].append(sdesc)
@@ -169,7 +191,59 @@ def search(ctx, seeds):
             diff = next((i for i, (a, b) in enumerate(zip(ref, s["final"])) if a != b), min(len(ref), len(s["final"])))
             where = "header" if diff < 375 else "points/EVLRs"
             add(f"appended file differs from one-shot ({where})", d, f"first differing byte {diff}; lengths {len(s['final'])} vs {len(ref)}")
+    for h, raw, accepted, raised, budget, n0, sizes, nev in failing_append_cases(ctx):
+        ctx.case(("failing-append", raw), nontrivial=True)
+        ctx.count("failing-append:" + ("raised" if raised else "completed"))
+        d = {"version": str(h.version), "format": h.point_format.id, "chunks": sizes, "evlrs": nev, "destination_fails_beyond_byte": budget, "original_size": n0}
+        try:
+            las = laspy.read(io.BytesIO(raw))
+        except Exception as ex:
+            if raised and nev:
+                continue     # the relocated EVLRs could not be written: the file is refused by the reader, which the property allows
+            add("file unreadable after a failed append", d, f"{type(ex).__name__}: {ex}")
+            continue
+        got = lasio.rec_bytes(las.points)
+        if accepted[:len(got)] != got:
+            add("failed append: file holds points that were not written", d, f"{len(las.points)} records read; not a prefix of old ++ accepted points")
     return failing[:8]
+
+
+def failing_append_cases(ctx):
+    """the destination fails during a chunk write; the with-block then closes the appender: the file must still be a valid LAS
+    file holding a prefix of (old points ++ accepted new points), with a header that describes exactly what it holds"""
+    import laspy
+    from laspy.lasappender import LasAppender
+    from harness.props.c01 import FailingStream
+    out = []
+    rng = ctx.rng
+    for _ in range(ctx.n(40, 300)):
+        h = lasio.rand_header(rng, version=rng.choice(["1.2", "1.4", "1.4"]))
+        A = lasio.rand_points(rng, h, rng.choice([0, 2, 5]))
+        evl = None
+        if h.version.minor >= 4 and rng.random() < 0.7:
+            evl = laspy.vlrs.vlrlist.VLRList([lasio.rand_vlr(rng, 100) for _ in range(rng.choice([1, 2]))])
+        raw0 = lasio.write_las(h, A, evl)
+        chunks = [lasio.rand_points(rng, h, rng.choice([1, 3, 8])) for _ in range(rng.choice([1, 2, 3]))]
+        end_pts = int.from_bytes(raw0[96:100], "little") + len(A) * h.point_format.size
+        total = sum(len(c) for c in chunks) * h.point_format.size
+        budget = end_pts + rng.randrange(0, total + 1)
+        st = FailingStream(10 ** 9, once=rng.random() < 0.6)
+        st.write(raw0)
+        st.seek(0)
+        st.budget = budget          # writes reaching beyond `budget` raise (header rewrite at 0 is still possible)
+        accepted = lasio.rec_bytes(A)
+        raised = False
+        try:
+            with LasAppender(st, closefd=False) as ap:
+                for c in chunks:
+                    ap.append_points(c)
+                    accepted += lasio.rec_bytes(c)
+        except OSError:
+            raised = True
+        except Exception as ex:
+            raised = True
+        out.append((h, st.getvalue(), accepted, raised, budget, len(raw0), [len(c) for c in chunks], len(evl or [])))
+    return out
 
 
 def replay(ctx, data):
